@@ -81,3 +81,26 @@ fn test_utf8_to_position() {
     assert_eq!(position.line, 2);
     assert_eq!(position.character, 3);
 }
+
+/// Verification hooks: public wrappers around the crate-private conversion functions.
+#[cfg(feature = "verif-hooks")]
+pub mod verif {
+    use std::ops::Range;
+
+    /// See [`super::position_to_utf8`]; the position is given as `(line, character)`.
+    pub fn position_to_utf8(text: &str, position: (u32, u32)) -> usize {
+        super::position_to_utf8(text, lsp_types::Position::new(position.0, position.1))
+    }
+
+    /// See [`super::utf8_to_position`]; the position is returned as `(line, character)`.
+    pub fn utf8_to_position(text: &str, index: usize) -> (u32, u32) {
+        let p = super::utf8_to_position(text, index);
+        (p.line, p.character)
+    }
+
+    /// See [`super::utf8_range_to_position`]; positions are returned as `(line, character)`.
+    pub fn utf8_range_to_position(text: &str, range: Range<usize>) -> ((u32, u32), (u32, u32)) {
+        let r = super::utf8_range_to_position(text, range);
+        ((r.start.line, r.start.character), (r.end.line, r.end.character))
+    }
+}
